@@ -137,6 +137,8 @@ def quick_jobs(seed=0):
     for name, scen in scenarios.CATALOGUE.items():
         for cfg in base_configs():
             for b in (0, 1):
+                if b > scen.get("max_budget", 1):
+                    continue
                 jobs.append(dict(name=name, scen=scen, cfg=cfg, budget=b,
                                  max_exec=6000))
     # a slice of the generated family (the first scenarios of the thorough tier's window)
